@@ -336,6 +336,51 @@ def run(tier, seed):
                 n_indep += 1
                 rep.count("period-independence cases (mood-based condition, signal-only predicate)")
             break
+    # ---- O-C02e: an auditor's verdicts do not depend on who else is in the audience -------------------------------
+    # member m: activation throughout or by mood, predicate over signals only, no computed variable anywhere: what it
+    # reports is determined by the mood changes and the samples of its own signals.  The same history is replayed with
+    # m alone in the audience (samples of signals nobody watches any more are dropped, as the spotlight would).
+    alone = []
+    n_alone = 0
+    for cfg, evs in cases:
+        if n_alone >= (150 if tier == "quick" else 2500):
+            break
+        if len(cfg["members"]) < 2:
+            continue
+        for m in cfg["members"]:
+            c = m["cond"]
+            mood_cond = c == g.TRUE or (c[0] == "bin" and c[1] in ("eq", "ne") and c[2] == g.var("mood") and c[3][0] == "str")
+            if not (m["expect"] and mood_cond and not m["assigns"]):
+                continue
+            pdeps = g.deps(m["expect"][1])
+            if not pdeps or not all(a for a, _ in pdeps):
+                continue
+            mine = set(pdeps)
+            ev1 = []
+            for e in evs:
+                if e[0] == "sig":
+                    keep = [x for x in e[2] if (x[1], x[2]) in mine]
+                    if keep:
+                        ev1.append((e[0], e[1], keep))
+                else:
+                    ev1.append(e)
+            solo = dict(cfg, members=[m], actors=sorted({a for a, _ in mine}))
+            streams = []
+            for c_, e_ in ((cfg, evs), (solo, ev1)):
+                r2 = impl.call("audition", Args={"Parse": {"Text": g.config_text(c_)}, "Events": g.events_json(e_), "EpochOffset": float(TEND)})
+                if r2.get("Panicked") or r2.get("harnessCrash") or r2.get("Err"):
+                    streams = None
+                    break
+                streams.append([(round(float(it[1]), 6) if float(it[1]) < TEND else "end", it[3]) for it in g.parse_impl(r2)["stream"] if it[0] == "rep" and it[2] == m["name"]])
+            if streams is None:
+                continue
+            n_alone += 1
+            rep.count("auditor-alone cases (verdicts with and without the rest of the audience)")
+            if streams[0] != streams[1]:
+                alone.append({"config": g.config_text(cfg), "events": g.events_json(evs), "auditor": m["name"], "reports_in_the_full_audience": streams[0][:12],
+                              "reports_alone": streams[1][:12], "config_alone": g.config_text(solo), "events_alone": g.events_json(ev1),
+                              "oracle": "FAIL the verdicts of an auditor depend on the other members of the audience"})
+            break
     # ---- probe: the round in which the condition is found false (the closing round of a period) ------------------
     # `m0 audits only while mood == 'blue'` / `m0 expects always: mood == 'blue'`: whenever the condition holds the
     # predicate holds, so no observation made IN a period disappoints.  The real loop (and the model, which mirrors it)
@@ -356,6 +401,8 @@ def run(tier, seed):
     rep.obligation("O-C02: periods bracketed, explainable from a fresh start, closed at the end (real stream)", "O", not ofail, json.dumps(ofail[:2])[:1800])
     rep.obligation("O-C02d: what is reported from the start of a period on does not depend on the samples taken before it (%d histories, each replayed with two altered prefixes on the real loop)" % n_indep,
                    "O", not indep, json.dumps(indep[:1])[:1800])
+    rep.obligation("O-C02e: the reports of an auditor (mood-based activation, signal-only predicate) are the same with and without the rest of the audience (%d histories replayed on the real loop)" % n_alone,
+                   "O", not alone, json.dumps(alone[:1])[:1800])
     closing_known = bool(closing) and rep.match_known({"kind": "closing-round-judged"}) is not None
     rep.obligation("O-C02c: nothing observed in a period's closing round is judged%s" % (" — the probe of the known finding excepted (it fails as recorded)" if closing_known else ""),
                    "O", (not closing) or closing_known, json.dumps(closing[:1])[:900])
@@ -363,6 +410,8 @@ def run(tier, seed):
         rep.violation("auditor m0: %s" % closing[0]["oracle"], closing[0], tags={"kind": "closing-round-judged"})
     if indep:
         rep.violation("auditor %s: %s" % (indep[0]["auditor"], indep[0]["oracle"]), dict(indep[0], failing_inputs=len(indep)), tags={"kind": "period-depends-on-earlier-samples"})
+    if alone:
+        rep.violation("auditor %s: %s" % (alone[0]["auditor"], alone[0]["oracle"]), dict(alone[0], failing_inputs=len(alone)), tags={"kind": "verdicts-depend-on-the-audience"})
     if ofail:
         seen = set()
         for f in ofail:
@@ -372,7 +421,7 @@ def run(tier, seed):
                 continue
             seen.add(k)
             rep.violation("auditor %s: marker stream %s violates the period specification (%s)" % (f["auditor"], f["markers"], f["oracle"]), f, tags=tag)
-    elif not indep:
+    elif not indep and not alone:
         if not ok:
             rep.violation("proof obligations of C02 no longer check", {"broken_theorems": info["failed"], "lean_output": info["output"][-3000:]}, nofail=True)
         elif kdis:
